@@ -13,6 +13,11 @@ theorem okAt_of_chunk {a n i : Nat} (h : ((List.range' a n).all okAt) = true) (h
   rw [List.all_eq_true] at h
   exact h i (List.mem_range'_1.mpr ⟨h1, h2⟩)
 
+theorem okAt_of_chunk' {f : Nat → Bool} {a n i : Nat} (h : ((List.range' a n).all f) = true)
+    (h1 : a ≤ i) (h2 : i < a + n) : f i = true := by
+  rw [List.all_eq_true] at h
+  exact h i (List.mem_range'_1.mpr ⟨h1, h2⟩)
+
 theorem okAt_all (i : Nat) (hi : i < 235) : okAt i = true := by
   by_cases h0 : i < 40
   · exact okAt_of_chunk chunk0 (by omega) (by omega)
